@@ -33,6 +33,18 @@ CHECKS = {
         note="Enumeration only for boxes up to 20000 (quick) / 300000 (thorough) points; auxiliary columns free.",
         technique="Lean 4 theorem (mutual structural induction, omega) + per-run model/code differential correspondence",
         ref="§4 C02"),
+    "C04": dict(
+        text=("Theorems (Props/C04.lean): per constructor (evalPt_mkAll/mkAny/mkAtMost/mkXor/mkXNor/mkNot/mkImply) the built node "
+              "evaluates to conjunction / disjunction / at-most-k / exactly-one / not-exactly-one / negation / material "
+              "implication of its 0/1-valued arguments, and build_truth: for every constructor expression (arbitrary nesting) "
+              "over boolean leaves with legal signs and pairwise distinct All-arguments, the built model evaluates to the "
+              "expression's truth function (induction over the expression, through negate_compl and the Good invariant that "
+              "constructors and negate preserve). Tie: trees built by the real constructors, by plog.from_json and by "
+              "Imply.from_cicJE are compared structurally with the model's build; oracle: full truth tables against an "
+              "independent truth function; thorough adds an exhaustive small scope."),
+        note="AtLeast(k<=0) without explicit sign is read by the constructor's documented sign rule. The JSON->constructor-call and rule-dictionary->constructor-call mappings are on the harness side (json_ast, cic_ast).",
+        technique="Lean 4 theorem (induction over constructor expressions) + differential correspondence + truth-table oracle",
+        ref="§4 C04"),
     "C05": dict(
         text=("Theorems (Props/C05.lean), about negate() as repaired by the fix: commit for defect D1: negate_compl — for every "
               "tree and in-bounds assignment the negated model evaluates to 1 - original (all four branches of the inward push, "
